@@ -154,7 +154,9 @@ class Body(with_metaclass(HTTPSemantic, IFile)):
 		u"""Applies the Content-Encoding codec to the content."""
 		codec = self.content_codec
 		if codec:
-			self.set(codec.decode(self.__content_bytes(), 'ISO8859-1').encode('ISO8859-1'))
+			content = self.__content_bytes()
+			if content:  # no content (HEAD, 204, 304, empty entity) is sent as no octets at all, not as an empty coded stream
+				self.set(codec.decode(content, 'ISO8859-1').encode('ISO8859-1'))
 			self.content_encoding = None
 
 	def set(self, content: Any) -> None:
